@@ -183,9 +183,9 @@ def accessor_worlds(F, res, accessors):
                 if mentions(w.value, INNER) and (sym('id'), False) not in da:
                     bad = 'returns an item of the inner arena on a path where `dead.contains(id)` was not tested false'
             elif name == 'contains':
-                if w.value == ('lit', True, 'bool') or show(w.value) == 'True':
+                if not (w.value == ('lit', False, 'bool') or show(w.value) == 'False'):
                     if (sym('id'), False) not in da:
-                        bad = 'answers true without `dead.contains(id)` being false'
+                        bad = 'can answer true (%s) without `dead.contains(id)` being false' % show(w.value)[:60]
             elif name == 'len':
                 if 'Sub' not in show(w.value) or 'len(self.dead)' not in show(w.value) or 'len(self.inner)' not in show(w.value):
                     bad = 'is not `inner.len() - dead.len()` (%s)' % show(w.value)[:80]
